@@ -408,7 +408,10 @@ def cellsplit_case(seed, rng, ctx):
                      + rng.choice(['', ' imp:n=1', ' trcl=(1 0 0) u=2', 'but', 'xbut u=1']))
             else:
                 mat = rng.choice(['0', '1', '12', '0.0', '-0', '00', '+0', '0e3', '1e0', 'x', '.', '0.', '.0', '1.5', '0x',
-                                  'e5', '0e', '1e+', '0E-2'])
+                                  'e5', '0e', '1e+', '0E-2',
+                                  # float(token) == 0 is decided on the double: underflowing spellings are "zero"
+                                  '1.2e-431', '4.9e-324', '2.4e-324', '2.5e-324', '1e-400', '0.0e-400', '1e999',
+                                  '0.' + '0' * rng.choice([5, 322, 323, 324, 400]) + rng.choice('0137')])
                 rho = rng.choice(['-2.7', '1.2e-4', '0.05', '-1', '(1', '2(', '', '-2.7E0'])
                 geom = rng.choice(['-1 2', '(1:2) -3', '-1:2', '#(1 2) 3', '1', '(1 2)', '-1 (2:3)#4 ', '- 1', '1 2 )', '3.1 -4.2'])
                 opts = rng.choice(['', 'imp:n=1', 'IMP:N=1 u=2', '*trcl=(1 0 0 30 60 90 120 30 90 90 90 0)', 'fill=3 (1 0 0)',
